@@ -36,7 +36,8 @@ ASSUMPTIONS = [
     "float64(d) (read_swc table) for d a correct rounding of the exact original to 4 decimals (both neighbours allowed at "
     "exact ties) - no tolerance is used",
     "node types are non-negative integers; coordinates/radii finite (the statement's quantifier)",
-    "comments are compared after str.strip(): leading blanks aside per the statement, trailing blanks not asserted (DESIGN)",
+    "comments are compared after str.lstrip() (leading blanks aside per the statement) and with a final line terminator removed; trailing "
+    "blanks and tabs after visible text are part of the text and must come back (they do on the pinned tree)",
     "a user comment that itself starts with the column-header text 'id type x y z r pid' is outside the comment alphabet "
     "(the text format cannot distinguish it from the writer's header); the near miss 'id type' is inside",
     "the writer's source header is allowed to be absent, or any leading block with at most one non-blank line; its text is "
@@ -52,7 +53,7 @@ KINDS = ("text", "bytes", "path-lib", "path-harness", "textfile", "path-bytes", 
 V = [0.0, 1.0, -1.0, 0.5, 0.03125, 0.00004, 0.00005, 0.00006, -0.00004, -0.00005, -0.00007, 1e-7, 0.99995, 1234.5678, 123456.789,
      2000000.125, 1e20, 3.4e38]
 TYPES = [0, 1, 2, 3, 7, 255, 1000, 2**31 - 1]
-COMMENT_ALPHABET = ["a", "two words", "  lead", "", "   ", "# hash", "trail  ", "id type", "café µm"]
+COMMENT_ALPHABET = ["a", "two words", "  lead", "", "   ", "# hash", "trail  ", "id type", "café µm", "tab\t", "cell |  "]
 HEADER_TEXT = "id type x y z r pid"
 
 
@@ -140,9 +141,10 @@ def judge_tree(R, what, orig, got, text, relational_ids=False):
 
 
 def judge_comments(R, what, written, read, source_opt, text):
-    """read = [optional source header block] + written, compared after strip()."""
-    w = [c.strip() for c in written]
-    g = [c.strip() for c in read]
+    """read = [optional source header block] + written, compared with leading blanks aside."""
+    norm = lambda c: c.lstrip().rstrip("\r\n")  # noqa: E731 - "leading blanks aside": trailing blanks and tabs belong to the text
+    w = [norm(c) for c in written]
+    g = [norm(c) for c in read]
     has_blank = any(c.strip() == "" and c != "" for c in written)
     extra_header = any(c.startswith(HEADER_TEXT) for c in g)
 
